@@ -152,6 +152,14 @@ def hyp_run(ctx, stats, strategy, predicate, max_examples, salt=0, shrink=True):
         test()
     except Violation:
         return dict(last)
+    except Exception as exc:  # noqa: BLE001
+        if _is_flaky(exc) and last:
+            # the predicate failed on a concrete case, but Hypothesis could not reproduce it while
+            # shrinking: the code under test keeps state across cases.  The observed failure stands.
+            out = dict(last)
+            out["failures"] = [dict(f, flaky_under_hypothesis=True) for f in out["failures"]]
+            return out
+        raise
     return None
 
 
@@ -180,7 +188,33 @@ def machine_run(ctx, stats, machine_cls, max_examples, steps, salt=0):
         )
     except Violation as v:
         return {"case": v.case, "failures": v.failures}
+    except Exception as exc:  # noqa: BLE001
+        if _is_flaky(exc) and last.get("case") is not None:
+            return {"case": last["case"],
+                    "failures": [dict(f, flaky_under_hypothesis=True) for f in last["failures"]]}
+        raise
     return None
+
+
+def record_violation(sink, case, failures):
+    """State machines call this right before raising Violation (see machine_run)."""
+    if sink is not None:
+        sink["case"] = case
+        sink["failures"] = failures
+
+
+def _is_flaky(exc):
+    try:
+        from hypothesis import errors
+
+        kinds = tuple(getattr(errors, n) for n in ("Flaky", "FlakyFailure", "FlakyStrategyDefinition",
+                                                   "FlakyReplay") if hasattr(errors, n))
+    except Exception:  # noqa: BLE001
+        return False
+    if isinstance(exc, kinds):
+        return True
+    subs = getattr(exc, "exceptions", None)  # ExceptionGroup
+    return bool(subs) and any(_is_flaky(e) or isinstance(e, Violation) for e in subs)
 
 
 # ------------------------------------------------------------------ parent
